@@ -567,7 +567,8 @@ Proof.
   { intros w y Hw Hc Hy. eapply (i_mon _ HI); eauto. }
   { intros y [Hy|Hy]; [left; left; auto|].
     destruct (Hpen1 _ Hy) as [(_ & Hn0 & _)|Hy']; [right|left; right; auto].
-    pose proof (sumf_nonneg _ contrib contrib_nonneg (upd (thr cf) tid t')). lia. }
+    pose proof (sumf_nonneg _ contrib contrib_nonneg (upd (thr cf) tid t')).
+    unfold it in Hlb' |- *. rewrite lb_of_item in Hlb' |- *. lia. }
   { intros y Hy. left. exact Hy. }
   { unfold it. cbn [it_ev]. intros y Hy.
     destruct Hte as [(_ & _ & _ & ->)|(_ & _ & ->)]; discriminate Hy. }
@@ -601,11 +602,9 @@ Proof.
     + intros j u _ Hj. pose proof (i_pend _ HI _ _ Hj) as Pj. fold s in Pj.
       destruct u as [td|c l td]; auto. destruct c; auto. destruct l; auto.
       cbn in Pj |- *. destruct Pj as (A & B & C & D). repeat split; auto; try lia.
-      destruct Hch as [(_ & -> & _)|[(_ & _ & -> & _)|(_ & _ & -> & _)]]; auto; lia.
     + destruct Hte as [(A & B & -> & _)|(_ & -> & _)]; [|exact I].
       cbn. repeat split; auto; try lia.
-      * destruct Hch as [(_ & -> & _)|[(A' & _)|(A' & _)]]; auto; contradiction.
-      * apply (i_open _ HI B).
+      apply (i_open _ HI B).
   - (* uniq *)
     eapply uniq_upd; [exact Hnth | exact (i_uniq _ HI) |].
     intros x Hx. right. destruct (Hh' _ Hx) as (-> & _). apply not_pending_installed; auto.
@@ -632,4 +631,67 @@ Proof.
       eapply pending_upd_new; eauto. reflexivity.
     + right; right. rewrite B. exact (i_cl0 _ HI).
     + left; reflexivity.
+Qed.
+
+(* ------------------------------------------------------------------ every step *)
+Ltac k1_side :=
+  try exact I; try tauto; try reflexivity; try (cbn; lia);
+  try (intros []; fail); try (intros ? Hx; discriminate Hx).
+
+Theorem Inv_step : forall cf tid, Inv cf -> Inv (wg_step cf tid).
+Proof.
+  intros cf tid HI. unfold wg_step, step.
+  destruct (nth_error (thr cf) tid) as [t|] eqn:Hnth; [|apply Inv_stutter; exact HI].
+  pose proof (i_wf _ HI _ _ Hnth) as Hwf.
+  destruct t as [[|c todo]|c l todo].
+  - (* finished thread: stutter *)
+    cbn. eapply Inv_K1; eauto; k1_side.
+  - (* call *)
+    cbn. eapply Inv_K1; eauto; k1_side.
+    + destruct c; exact I.
+    + destruct c; exact I.
+    + destruct c; exact I.
+    + intros x. destruct c; cbn; tauto.
+    + destruct c as [d| |]; cbn; try lia. destruct (Z.ltb_spec d 0); lia.
+    + destruct c as [d| |]; cbn; lia.
+  - destruct c as [d| |]; destruct l as [|ov oc och|x n| |]; try destruct Hwf.
+    + (* Add: load *)
+      cbn. eapply Inv_K1; eauto; k1_side.
+    + (* Add: compare-and-swap *)
+      pose proof (i_ver _ HI _ _ Hnth) as V. cbn in V. destruct V as [V1 V2].
+      cbn [tstep wg_mstep]. destruct (Nat.eqb_spec (ver (sh cf)) ov) as [Ev|Ev].
+      * symmetry in Ev. destruct (V2 Ev) as [-> ->]. subst ov.
+        destruct (Z.eqb_spec (cnt (sh cf) + d) 0) as [En|En].
+        -- destruct (Nat.eqb_spec (chn (sh cf)) 0) as [Ec|Ec]; cbn.
+           ++ eapply Inv_K2; eauto 8.
+           ++ eapply Inv_K2; eauto 8.
+        -- destruct (Nat.eqb_spec (chn (sh cf)) 0) as [Ec|Ec]; cbn.
+           ++ eapply Inv_K2; eauto 8.
+           ++ eapply Inv_K2; eauto 8.
+      * cbn. eapply Inv_K1; eauto; k1_side.
+    + (* Add: close *)
+      pose proof (i_pend _ HI _ _ Hnth) as P. cbn in P. destruct P as (_ & _ & Pc & _).
+      cbn [tstep wg_mstep]. destruct (memb x (closed (sh cf))) eqn:M.
+      * apply memb_In in M. contradiction.
+      * cbn. apply Inv_K3; auto.
+    + (* Wait *)
+      cbn. eapply Inv_K1; eauto; k1_side.
+      intros x Hx. inversion Hx. reflexivity.
+    + (* Count *)
+      cbn. eapply Inv_K1; eauto; k1_side.
+Qed.
+
+Theorem Inv_exec : forall progs sched, Inv (wg_exec progs sched).
+Proof.
+  intros progs sched. unfold wg_exec.
+  apply (exec_invariant _ _ _ _ _ wg_begin wg_mstep wg_fatal wg_observe wg_site Inv).
+  - apply Inv_init.
+  - intros cf t H. apply Inv_step. exact H.
+Qed.
+
+Theorem Inv_run : forall cf sched, Inv cf -> Inv (wg_run cf sched).
+Proof.
+  intros cf sched H. unfold wg_run.
+  apply (run_invariant _ _ _ _ _ wg_begin wg_mstep wg_fatal wg_observe wg_site Inv); auto.
+  intros cf' t H'. apply Inv_step. exact H'.
 Qed.
